@@ -6,8 +6,9 @@ package fix
 
 //@ global[C01,C02,C03,C11,C17,C18] Delimiter = bytes(SOH)
 
+//@ spec firstAnchored(d string, t string) int = ite(hasPrefix(d, cat(t, "=")), 0, ite(idx(d, cat(SOH, t, "=")) < 0, -1, idx(d, cat(SOH, t, "=")) + 1))
 //@ spec anchored(d string, i int, t string) bool = (i == 0 || code(d, i-1) == 1) && sub(d, i, i+len(t)+1) == cat(t, "=")
-//@ spec valueAt(d string, j int) string = ite(idxfrom(d, SOH, j) < 0, from(d, j), sub(d, j, idxfrom(d, SOH, j)))
+//@ spec valueAt(d string, j int) string = ite(idx(from(d, j), SOH) < 0, from(d, j), sub(from(d, j), 0, idx(from(d, j), SOH)))
 
 //@ func ValueByTag(msg []byte, tag string) (res []byte, err error)
 //@   safety[C11]
@@ -31,6 +32,9 @@ package fix
 //@   method FromBytes(d []byte) (err error):
 //@     modifies self.*
 //@     ensures[C02,C03] imp(istype(self, *Raw), err == nil && self.(*Raw).value == d)
+//@     ensures[C02,C14] @decoded imp(!isnil(d), fbPost(self, d, err))
+//@     ensures[C02] @null imp(isnil(d) && !istype(self, *Raw), nullV(self) && err == nil)
+//@     reveal nullV
 //@   method Value() (res interface{}):
 //@     pure
 //@     ensures[C11] imp(istype(self, *Int), istype(res, int))
@@ -58,6 +62,26 @@ package fix
 //@   reveal wireV, nullV
 //@ lemma[C01,C17] wireV_string(v Value): requires istype(v, *String) ensures wireV(v) == ite(!v.(*String).valid || v.(*String).value == "", nilbytes, bytes(v.(*String).value)) && nullV(v) == !v.(*String).valid
 //@   reveal wireV, nullV
+
+// ---- decoding of one value (C02a): what FromBytes leaves behind, per dynamic type ---
+//@ spec decBool(d string) bool = d == "Y"
+//@ spec intRange(d string) bool = isint(d) && atoi(d) < 9223372036854775808 && atoi(d) >= -9223372036854775808
+//@ spec uintRange(d string) bool = isdigits(d) && atoi(d) < 18446744073709551616
+//@ spec fbPost(v Value, d bytes, err error) bool =
+//@   imp(istype(v, *String), err == nil && v.(*String).valid && v.(*String).value == string(d)) &&
+//@   imp(istype(v, *Int), v.(*Int).valid && (err == nil) == intRange(string(d)) && imp(err == nil, v.(*Int).value == atoi(string(d)))) &&
+//@   imp(istype(v, *Uint), v.(*Uint).valid && (err == nil) == uintRange(string(d)) && imp(err == nil, v.(*Uint).value == atoi(string(d)))) &&
+//@   imp(istype(v, *Float), v.(*Float).valid && v.(*Float).source == d && (err == nil) == pfloatok(string(d)) && v.(*Float).value == pfloat(string(d))) &&
+//@   imp(istype(v, *Time), v.(*Time).valid && (err == nil) == ptimeok(TimeLayout, string(d)) && v.(*Time).value == ptime(TimeLayout, string(d))) &&
+//@   imp(istype(v, *Bool), err == nil && v.(*Bool).valid && v.(*Bool).value == decBool(string(d))) &&
+//@   imp(istype(v, *Raw), err == nil && v.(*Raw).value == d)
+
+// round trips of the text codecs (C02a): decoding the canonical text gives the value back
+//@ lemma[C02] rt_int(n int): requires n < 9223372036854775808 && n >= -9223372036854775808 ensures intRange(dec(n)) && atoi(dec(n)) == n
+//@ lemma[C02] rt_uint(n int): requires 0 <= n && n < 18446744073709551616 ensures uintRange(dec(n)) && atoi(dec(n)) == n
+//@ lemma[C02] rt_bool(b bool): decBool(ite(b, "Y", "N")) == b
+//@ axiom rt_float(f int): pfloatok(ffmt(f)) && pfloat(ffmt(f)) == f
+//@ axiom rt_time(t int): ptimeok(TimeLayout, tfmt(t, TimeLayout)) && ptime(TimeLayout, tfmt(t, TimeLayout)) == t
 
 // ---- items (C17, C01) ---------------------------------------------------------------
 //@ spec wireKV(kv *KeyValue) bytes =
@@ -245,3 +269,14 @@ package fix
 
 //@ lemma[C03,C02] wireV_raw(v Value): requires istype(v, *Raw) ensures wireV(v) == v.(*Raw).value && nullV(v) == isnil(v.(*Raw).value)
 //@   reveal wireV, nullV
+
+// ---- template copies (C02b) -----------------------------------------------------------
+//@ func (kv *KeyValue) AsTemplate() (res *KeyValue)
+//@   requires kv != nil
+//@   ensures[C02] @fresh fresh(res) && res.Key == kv.Key && res.Value != nil && res.Value != kv.Value
+//@   ensures[C02] @sametype typeof(res.Value) == typeof(kv.Value) || !isLibValue(kv.Value)
+//@   ensures[C02] @null imp(isLibValue(kv.Value), nullV(res.Value))
+//@   ensures[C11] wfItem(res)
+//@   lemma wf_kv_intro(res)
+//@   reveal nullV
+//@ spec isLibValue(v Value) bool = istype(v, *String) || istype(v, *Int) || istype(v, *Uint) || istype(v, *Float) || istype(v, *Time) || istype(v, *Bool) || istype(v, *Raw)
